@@ -43,6 +43,15 @@ def opsAlign (a : Array String) : Option String :=
     let st := dhtv tinyF (metricOf a[1]!) (algoOf a[2]!) plan (mask3 a (7 + 3*ns) K F T)
     some (fmtMapping (at2 st.mapping) ++ " | " ++ fmtFloats ((List.finRange K).flatMap fun k =>
       (List.finRange F).flatMap fun f => (List.finRange T).map fun t => at3 st.features k f t))
+  | "inlinepa" =>
+    -- inlinepa K T <w K*T> <spatial K*T> <spectral K*T>   (one frequency bin, K >= 1)
+    let K := tokNat a 1; let T := tokNat a 2
+    if hK : 0 < K then
+      let tbl (off : Nat) : Tab2 ((K-1)+1) T Float := tab2 fun k t => fl a off (k.val * T + t.val)
+      let w := tbl 3; let sp := tbl (3 + K*T); let sc := tbl (3 + 2*K*T)
+      let r := tab2 (inlinePa (K := K-1) tinyF (at2 w) (at2 sp) (at2 sc))
+      some (fmtFloats ((List.finRange ((K-1)+1)).flatMap fun k => (List.finRange T).map fun t => at2 r k t))
+    else some ""
   | _ => none
 
 end Driver
